@@ -1,5 +1,22 @@
 (* conv: n *)
-(* Runner for the simd engine (C15): dispatcher model, kernel models, intrinsic semantics. *)
+(* Runner for the simd engine (C15): dispatcher model, kernel models, intrinsic semantics.
+   Case lines are those of harness/h_simd.c; the variants / alignment tokens are ignored (the models have no
+   alignment).  Reply: "OK <result hex> <ret hex>" when the scalar model and every ISA model agree,
+   "MDIFF variant=..", "MFAULT variant=..", or "UNMODELLED". *)
+let rec repeat x n = if n <= 0 then [] else x :: repeat x (n - 1)
+let fill n = repeat (n_of_int 0xEE) n
+
+(* compare the ISA models with the scalar model *)
+let judge (scalar : n list res) (variants : (string * n list res) list) : string =
+  match scalar with
+  | Ok want ->
+      let rec go = function
+        | [] -> Printf.sprintf "OK %s 0" (hex_of_bytes want)
+        | (name, Ok got) :: tl -> if got = want then go tl else Printf.sprintf "MDIFF variant=%s got=%s want=%s" name (hex_of_bytes got) (hex_of_bytes want)
+        | (name, _) :: _ -> "MFAULT variant=" ^ name in
+      go variants
+  | _ -> "MFAULT variant=scalar"
+
 let handle toks =
   match toks with
   | ["dispatch"; bits] ->
@@ -8,5 +25,23 @@ let handle toks =
       String.concat "" (List.map (fun (s, k) -> Printf.sprintf " %d=%s" (int_of_nat s)
                                    (match k with Some k -> string_of_int (int_of_nat k) | None -> "none"))
                           (Simd_ext.dispatch_indices bl))
+  | ["bssef"; _; _; count; data] ->
+      let c = int_of_string count in let n = nat_of_int c and src = bytes_of_hex data and o = fill (4 * c) in
+      judge (Simd_ext.scalar_bss_encode (nat_of_int 4) n src o)
+        ["sse", Simd_ext.sse_bss_encode_float n src o; "avx2", Simd_ext.avx2_bss_encode_float n src o;
+         "avx512", Simd_ext.avx512_bss_encode_float n src o]
+  | ["bssdf"; _; _; count; data] ->
+      let c = int_of_string count in let n = nat_of_int c and src = bytes_of_hex data and o = fill (4 * c) in
+      judge (Simd_ext.scalar_bss_decode (nat_of_int 4) n src o)
+        ["sse", Simd_ext.sse_bss_decode_float n src o; "avx2", Simd_ext.avx2_bss_decode_float n src o;
+         "avx512", Simd_ext.avx512_bss_decode_float n src o]
+  | ["bssed"; _; _; count; data] ->
+      let c = int_of_string count in let n = nat_of_int c and src = bytes_of_hex data and o = fill (8 * c) in
+      judge (Simd_ext.scalar_bss_encode (nat_of_int 8) n src o)
+        ["sse", Simd_ext.sse_bss_encode_double n src o; "avx2", Simd_ext.avx2_bss_encode_double n src o]
+  | ["bssdd"; _; _; count; data] ->
+      let c = int_of_string count in let n = nat_of_int c and src = bytes_of_hex data and o = fill (8 * c) in
+      judge (Simd_ext.scalar_bss_decode (nat_of_int 8) n src o)
+        ["sse", Simd_ext.sse_bss_decode_double n src o; "avx2", Simd_ext.avx2_bss_decode_double n src o]
   | _ -> "UNMODELLED"
 let () = main_loop handle
